@@ -467,6 +467,16 @@ func checkC01(p *Prog, rp *Report) {
 		rp.Extra["max_window"] = res.MaxWindow
 	}
 
+	if rp.Tier == "thorough" && impl != nil {
+		// cross-check of the product by plain interpretation on exact pairs
+		pr := rp.Rule("C01-PAIRS", "the comparator agrees in sign with the reference on a family of exact pairs", 1)
+		b := comparatorBounded(p, impl)
+		if b.undecided != "" {
+			pr.undecided(fname(impl), p.Pos(impl.Pos()), b.undecided)
+		} else {
+			fillProblems(pr, fname(impl), p.Pos(impl.Pos()), b.problems, fmt.Sprintf("%d exact pairs (strings of up to 3 bytes over 0 1 a ~ +; 63 x 63 longer ones with leading zeros, runs of different length and of 20 to 30 digits)", b.pairs))
+		}
+	}
 	w := rp.Rule("C01-W", "character weights induce dpkg's order on the alphabet", 1)
 	checkWeights(p, w, impl)
 
